@@ -230,10 +230,14 @@ CLAIMS = {
          "identifiers and integer literals with all 12 binary operators, both prefix operators, calls of any arity, field access and tuple "
          "projection: parse (printMin t) = t; well-formed only excludes an integer literal as receiver of a postfix operation, witnessed by "
          "literal_receiver_rejected); left_assoc; string literals: escape_accepted / decode_escape (every string has a spelling the lexer "
-         "regex accepts and lowering decodes it back), decode_plain, escape_table, multiline_fidelity. Tied to the Rust by a differential "
+         "regex accepts and lowering decodes it back), decode_plain, escape_table, multiline_fidelity; escapes_table_spec, surrogate_combine "
+         "(the surrogate-pair arithmetic, translated from the Rust expression on every run, equals 0x10000+(hi-0xD800)*0x400+(lo-0xDC00) "
+         "for all 1024x1024 pairs), decode_surrogate_pair, decode_bmp_escape, decode_lone_surrogate, decode_escapeAllU (round trip with the "
+         "all-\\u encoder). Tied to the Rust by a differential "
          "run: ~29 000 trees (all operator pairs and triples exhaustively, random larger trees, trees with redundant parentheses) are printed "
          "by the model, rendered with canonical blanks / random trivia and comments / glued, parsed by the real parse_ast_file, and the dumped "
-         "ast::Expr must equal both the original tree (property oracle) and the model's parse (tie); ~390 literal spellings (every integer "
+         "ast::Expr must equal both the original tree (property oracle) and the model's parse (tie); ~390 literal spellings plus ~11 800 \\u-escape spellings over the whole code space (every plane, all surrogates, lone "
+         "surrogates; in literals, patterns, multi-line strings; oracle computed in Python from the source text) (every integer "
          "suffix, floats, every escape, multi-line strings) are compiled by the whole pipeline and the EPrim reaching Core must be the denoted "
          "value (oracle) and equal the model's decoding (tie).",
     design_ref="§5 C11, §C11 — as built",
